@@ -3861,6 +3861,8 @@ def _fix_duplicate_from_imports(source: str) -> str:
         module_import_nodes = collections.defaultdict(list)
 
         for node in group:
+            if core.has_ignore_comment(source, core.get_charnos(node, source)):
+                continue
             module_import_aliases[node.module].update(
                 (alias.name, alias.asname if alias.asname != alias.name else None)
                 for alias in node.names
@@ -3896,6 +3898,8 @@ def _fix_duplicate_regular_imports(source: str) -> str:
     import_nodes = collections.defaultdict(list)
 
     for node in core.walk(root, ast.Import):
+        if core.has_ignore_comment(source, core.get_charnos(node, source)):
+            continue
         for alias in node.names:
             asname = (
                 alias.asname
